@@ -8,7 +8,7 @@ use std::rc::Rc;
 pub const DEF: PropDef = PropDef {
     id: "C04",
     level: "exploration",
-    rule: "complete enumeration of all control skeletons (blocks of 1..3 statements; say <marker> | if C [else] | while G | until G | break | continue; nesting <= 3; break/continue only inside loops) up to the node bound with the core alphabet (C in {true,false}, one self-exhausting guard `roll q` over a two-item queue), plus every single deviation to the rich alphabet (conditions of every value kind, other guards, long spellings, an erroring statement, empty then-block, unterminated last block) on every program of <= 5 (thorough 7) nodes; plus 11 conditions that print, consume or fail when evaluated x 18 shapes (empty then / else / loop bodies closed by end of input or else, at top level, in a loop, in a function; loops left by break from depth 1 and 3, by continue-then-break, by return; nested loops); the marker trace and outcome are compared with the reference interpreter run on the parsed tree; non-trivial = contains at least one if or loop and was judged; distinct = distinct program text",
+    rule: "complete enumeration of all control skeletons (blocks of 1..3 statements; say <marker> | if C [else] | while G | until G | break | continue; nesting <= 3; break/continue only inside loops) up to the node bound with the core alphabet (C in {true,false}, one self-exhausting guard `roll q` over a two-item queue), plus every single deviation to the rich alphabet (conditions of every value kind, other guards, long spellings, an erroring statement, empty then-block, unterminated last block) on every program of <= 5 (thorough 7) nodes; plus 17 bare literals as while / until guard (body left by break, by a counted break, by return) and as if condition; plus 11 conditions that print, consume or fail when evaluated x 18 shapes (empty then / else / loop bodies closed by end of input or else, at top level, in a loop, in a function; loops left by break from depth 1 and 3, by continue-then-break, by return; nested loops); the marker trace and outcome are compared with the reference interpreter run on the parsed tree; non-trivial = contains at least one if or loop and was judged; distinct = distinct program text",
     assumptions: &["reference interpreter (refmodel/interp.rs) written from the property text", "programs larger than the node bound, and several simultaneous rich deviations, are not covered"],
     build,
     exhaustive: true,
@@ -281,8 +281,21 @@ pub const EFFECT_SHAPES: &[&str] = &[
 ];
 const EFFECT_PRELUDE: &str = "rock q with 1, 0, 2, 1, 1\nloud takes k\nsay \"loud\"\nsay k\ngive back k\n\nboom takes k\nsay - true\n\nput 0 into c\n";
 
+/// bare literals of every kind as condition / guard (a loop body leaves by break, so every program ends)
+pub const LITERAL_GUARDS: &[&str] = &["true", "false", "1", "0", "0.5", "-1", "\"yes\"", "\"\"", "\"0\"", "null", "mysterious", "empty", "right", "wrong", "nothing", "not true", "not 0"];
+
 pub fn effect_programs() -> Vec<String> {
     let mut v = Vec::new();
+    for g in LITERAL_GUARDS {
+        for kw in ["while", "until"] {
+            v.push(format!("say 0\n{} {}\nsay 1\nbreak\n\nsay 2\n", kw, g));
+            v.push(format!("put 0 into c\n{} {}\nbuild c up\nsay c\nif c is 3\nbreak\n\n\nsay 9\n", kw, g));
+            v.push(format!("fun takes k\n{} {}\ngive back 1\n\ngive back 2\n\nsay fun taking 0\n", kw, g));
+        }
+        v.push(format!("if {}\nsay 1\nelse\nsay 2\n\nsay 3\n", g));
+        v.push(format!("if {}\nsay 1\n\nsay 3\n", g));
+        v.push(format!("if {}\nelse\nsay 2\n\nsay 3\n", g));
+    }
     for sh in EFFECT_SHAPES {
         for c in EFFECT_CONDS {
             v.push(format!("{}{}", EFFECT_PRELUDE, sh.replace("@C", c)));
